@@ -39,7 +39,9 @@ REQUIRED = ["entries_injective", "einv_fresh", "bit_set_get", "bit_total", "serv
             "reprocess_same_as_delivery", "reprocessed_revocation_effective", "reprocess_other_content_is_inert", "fact_reprocess_callback_switch",
             # vcr.Resolve / vcr.Search (NutsProofs.Props.C11Resolve)
             "verify_trust_at_refines", "resolve_never_presents_revoked_as_valid", "resolve_valid_only_if_not_revoked", "resolve_revoked_says_revoked",
-            "search_omits_revoked", "resolve_after_revocation_in_history", "fact_resolve_and_search_sites"]
+            "search_omits_revoked", "resolve_after_revocation_in_history", "fact_resolve_and_search_sites",
+            # VerifyVP (NutsProofs.Props.C11Present)
+            "vp_accepted_only_without_revoked_credentials", "vp_with_revoked_credential_refused", "vp_of_revoked_credential_says_revoked", "fact_verify_vp_chain"]
 
 ENTRY_RE = re.compile(r"(n\d+/\S+/\d+) (\S+) wf=(\w+)")
 
@@ -409,6 +411,22 @@ def voracle(ops, impl):
         elif kind == "visrevoked":
             if (line == "visrevoked true") != (op["id"] in accepted):
                 report("C11:isrevoked-disagrees-with-accepted-revocations", f"{op['id']} {line}", i)
+        elif kind == "vvp":
+            # a presentation: accepted (credentials returned) only if the node holds a revocation for none of its credentials
+            ids = [c["id"] for c in op.get("creds", [])]
+            rev = [c for c in ids if c in accepted]
+            at = op.get("at", 0)
+            stats[f"vp:n={len(ids)}:revoked-inside={len(rev)}:{'verifyVCs' if not op.get('noverifyvcs') else 'no-vc-verification'}:at={'nil' if not at else ('past' if at < 0 else 'future')}"] += 1
+            if "credentials-returned-with-error" in line:
+                report("C11:presentation-refused-but-credentials-returned", line, i)
+            if rev and not op.get("noverifyvcs") and line.startswith("vvp ok"):
+                report("C11:presentation-with-revoked-credential-accepted",
+                       f"{rev[0]} has an accepted revocation; VerifyVP(verifyVCs=true, validAt = now{at:+d} min) of a presentation of {len(ids)} credentials answers '{line}'", i)
+            wellformed = (not rev and op.get("holder") == op["presenter"] and op.get("vpsig") != "bad" and (at == 0 or at >= -45)
+                          and all(c["subject"] == op["presenter"] and c["id"].split("#")[0] == c["issuer"] and
+                                  (c.get("proof") == "good" or (not c.get("proof") and c["issuer"] == op["presenter"])) for c in op.get("creds", [])))
+            if wellformed and line != f"vvp ok n={len(ids)}":
+                report("C11:revoked-without-revocation" if "revoked" in line else "C11:wellformed-presentation-refused", f"{line} for {ops[i][:300]}", i)
         elif kind == "vverify":
             stats["verify"] += 1
             cid, iss = op.get("id", ""), op["issuer"]
@@ -765,7 +783,7 @@ def run_verifier_harness(ctx):
 
 def run(ctx):
     facts = ctx.facts()
-    thms = ctx.build_and_audit(["NutsProofs.Props.C11", "NutsProofs.Props.C11Wire", "NutsProofs.Props.C11ValidAt", "NutsProofs.Props.C11Rebase", "NutsProofs.Props.C11CredStatus", "NutsProofs.Props.C11Reprocess", "NutsProofs.Props.C11Resolve"])
+    thms = ctx.build_and_audit(["NutsProofs.Props.C11", "NutsProofs.Props.C11Wire", "NutsProofs.Props.C11ValidAt", "NutsProofs.Props.C11Rebase", "NutsProofs.Props.C11CredStatus", "NutsProofs.Props.C11Reprocess", "NutsProofs.Props.C11Resolve", "NutsProofs.Props.C11Present"])
     for r in REQUIRED:
         if not any(t.endswith("Props." + r) for t in thms):
             ctx.oblige("thm-present:" + r, False, "theorem missing or its module does not build")
